@@ -279,6 +279,7 @@ class E2E(Harness):
         observe = {"yields": obs_y, "end": end, "warnings": n_warn, "cls": "ran"}
         spec = {"yields": spec_y, "end": spec_end}
         cls = ",".join(y["kind"] for y in spec_y) + ("|" + spec_end if spec_end != "stop" else "")
+        self._spec_end = spec_end
         xo, xi, xobs = self.extra(ctx, stream, pk, yields, index_of)
         obl += xo
         observe.update(xobs)
